@@ -513,6 +513,9 @@ func Replay(file string) int {
 	if rf, ok := replayers[f.Property]; ok {
 		return rf(&f)
 	}
+	if bc, ok := batchChecks[f.Property]; ok {
+		return replayBatch(bc, &f)
+	}
 	root, ok := progChecks[f.Property]
 	if !ok {
 		fmt.Fprintln(os.Stderr, "no replayer for", f.Property)
